@@ -38,11 +38,15 @@ func recvSoundness(c *core.Ctx, e *scen.Engine, s *scen.Sent, n *world.Node, r *
 	if _, isRecv := s.Msg.(*packettypes.MsgRecvPacket); !isRecv {
 		return
 	}
-	accepted := r.OK() && world.CountEvents(r.Events, packettypes.EventTypeRecvPacket) > 0
-	if !accepted {
-		// a receipt, callback or forward must not appear in a rejected tx: a failed
-		// tx carries no events of its msgs, and the no-trace check covers the store
+	// "A relayed message for which no such commitment exists ... is rejected": the
+	// verdict is taken from the model first, then compared with the tx result, whatever
+	// the tx did (receipt, callback, forward, or merely an error acknowledgement written)
+	if !r.OK() {
+		// a failed tx carries no events of its msgs; the no-trace check covers the store
 		return
+	}
+	if world.CountEvents(r.Events, packettypes.EventTypeRecvPacket) == 0 {
+		c.W.Stats.Inc("probe-recv-ok-without-recv-event")
 	}
 	prover := scen.ProvingChainForRecv(p, n.Name)
 	cm := e.PM.On(prover).LiveCommit(model.KeyOf(p), int64(h.RevisionHeight)-1)
@@ -107,7 +111,19 @@ func runC01(c *core.Ctx, crashes bool) {
 	nChains := ch.Range(2, 4)
 	w, e := buildTraffic(c, nChains, world.DefaultClientParams())
 	e.DumpStores = TokenStores
+	// relay chains with restrictive or empty rule sets: the refusal branch of the relay hop
+	for _, n := range w.Nodes {
+		switch ch.Int(4) {
+		case 0:
+			c.Check(w.SetRules(n, []string{"*,*,NFT"}))
+			w.Stats.Inc("restrictive-rules")
+		case 1:
+			c.Check(w.SetRules(n, []string{}))
+			w.Stats.Inc("empty-rules")
+		}
+	}
 	uni := scen.DefaultUniverse()
+	uni.UnknownDestPct = 8
 	e.SeedTokens(uni, 2)
 
 	mutated := 0
